@@ -1,6 +1,6 @@
 (* C06 - SIV and ISAP modes compute their documented constructions; ISAP keys
    persist.  (Also the SIV / ISAP parts of C02: exactness of decryption.) *)
-From AsconV Require Import Model.Sivm Proofs.AeadP Proofs.SivP Proofs.IsapP Proofs.PermP Props.Properties_C01.
+From AsconV Require Import Model.Sivm Proofs.AeadP Proofs.SivP Proofs.SivDepP Proofs.IsapP Proofs.PermP Props.Properties_C01.
 From Coq Require Import ZArith.
 Local Open Scope nat_scope.
 
@@ -18,13 +18,33 @@ Theorem C06_siv : forall v K N A P, variant_ok v -> wf_kn v K N ->
 Proof. intros v K N A P Hv. exact (siv_encrypt_c_spec Perm.perm perm_len v (variant_wf v Hv) (variant_iv v Hv) K N A P). Qed.
 Print Assumptions C06_siv.
 
-(* every ciphertext byte is the plaintext byte xor a keystream byte that is a
-   function of the key and the tag only; equal inputs give equal outputs *)
-Theorem C06_siv_tag_dependence : forall v K N A P,
+(* BY CONSTRUCTION: this only unfolds the definition of the specification function Spec/Siv.siv_encrypt (written from
+   doc/siv.dox: body = P xor keystream(K, tag), then the tag); it is kept because it is the form the next theorem and the
+   C02 exactness proofs use.  It is not a statement about the code, and "depends on" is meant structurally: the keystream
+   is a function of key and tag only - no claim about cryptographic dependence is made or could be proved here.
+   "Equal inputs give equal outputs" is the fact that siv_encrypt_c is a function. *)
+Theorem C06_siv_tag_dependence_by_construction : forall v K N A P,
   Siv.siv_encrypt Perm.perm v K N A P =
   xorl P (Siv.siv_keystream Perm.perm v K (Siv.siv_tag Perm.perm v K N A P) (length P)) ++ Siv.siv_tag Perm.perm v K N A P.
 Proof. reflexivity. Qed.
-Print Assumptions C06_siv_tag_dependence.
+Print Assumptions C06_siv_tag_dependence_by_construction.
+
+(* About the C-shaped model function the harness drives (siv_encrypt_c, two passes over the state as ascon*_siv_encrypt does):
+   its output C is |P| + 16 bytes; the last 16 bytes T are the first-pass tag; the body is P xor the keystream generated from
+   the key and THAT T - i.e. it is what the model's second pass (siv_crypt_c) produces with the output's own tag in the nonce
+   position; and nonce and AD enter the body through T only: any other nonce / AD with the same first-pass tag gives the same
+   output. *)
+Theorem C06_siv_tag_is_nonce : forall v K N A P, variant_ok v -> wf_kn v K N ->
+  let C := fst (siv_encrypt_c Perm.perm v K N A P) in
+  let T := skipn (length P) C in
+  length C = length P + 16 /\
+  T = Siv.siv_tag Perm.perm v K N A P /\
+  firstn (length P) C = xorl P (Siv.siv_keystream Perm.perm v K T (length P)) /\
+  firstn (length P) C = siv_crypt_c Perm.perm v K T P /\
+  forall N' A', wf_kn v K N' -> Siv.siv_tag Perm.perm v K N' A' P = Siv.siv_tag Perm.perm v K N A P ->
+    fst (siv_encrypt_c Perm.perm v K N' A' P) = C.
+Proof. intros v K N A P Hv. exact (siv_encrypt_c_own_tag Perm.perm perm_len v (variant_wf v Hv) (variant_iv v Hv) K N A P). Qed.
+Print Assumptions C06_siv_tag_is_nonce.
 
 Theorem C06_siv_exact : forall v K N A C m, variant_ok v -> wf_kn v K N ->
   (Siv.siv_decrypt Perm.perm v K N A C = Some m <->
@@ -79,8 +99,8 @@ Theorem C06_key_roundtrip : forall pk, wf_pk pk -> isap_load_c (isap_save_c pk) 
 Proof. intros pk [Le La]. exact (isap_load_save pk Le La). Qed.
 Theorem C06_key_roundtrip2 : forall k, length k = 80 -> isap_save_c (isap_load_c k) = k.
 Proof. exact isap_save_load. Qed.
-Print Assumptions C06_key_roundtrip2.
 Print Assumptions C06_key_roundtrip.
+Print Assumptions C06_key_roundtrip2.
 
 Example C06_nonvacuous :
   let K := map N.of_nat (seq 0 20) in let N := map N.of_nat (seq 16 16) in
